@@ -28,7 +28,7 @@ WeakTuples(a) == IF Len(a) = 1 THEN WeakUnary(a[1])
                       THEN (IF IsLmV(a[1]) THEN {<<w, a[2]>> : w \in Full1(a[1])} ELSE {<<a[1], w>> : w \in Full1(a[2])})
                  ELSE WeakBinary(a[1], a[2])
 
-NoLm(a) == \A i \in 1..Len(a) : ~(IsNumK(a[i]) /\ Has(a[i].v, "lm"))
+NoLm(a) == \A i \in 1..Len(a) : ~(IsNumK(a[i]) /\ (Has(a[i].v, "lm") \/ Has(a[i].v, "dec")))
 Tuples0 == IF Api \in EqOps THEN UNION {EqPairs(t) : t \in EqTypes} ELSE ArgTuples(Api)
 \* one decimal held at 512 bits (a small landmark, ordered in the model: it is the operand that gets weakened) compared with the same decimal
 \* held as a float64 (equal for cty, a different rational; left as it is)
